@@ -417,9 +417,14 @@ def run(ctx):
                 if ln and not ln.startswith("#"):
                     f = [x.strip() for x in ln.split("|")]
                     g.cases.append({"line": f[0], "arch": f[0].split()[0], "mn": f[1], "cls": f[2], "ref": f[3] if len(f) > 3 and f[3] else None})
-    gen_rv(g, 64)
-    gen_rv(g, 32)
-    gen_la(g)
+    if ctx.replay:
+        # ./check C20 --replay replays/C20/<file>.json : only the recorded case
+        rp = json.load(open(ctx.replay)).get("replay", {})
+        g.cases = [{"line": rp["line"], "arch": rp["line"].split()[0], "mn": rp["mnemonic"], "cls": rp["class"], "ref": None}]
+    else:
+        gen_rv(g, 64)
+        gen_rv(g, 32)
+        gen_la(g)
     cases = g.cases
     ops = [c["line"] for c in cases]
     text = "\n".join(ops) + "\n"
